@@ -340,7 +340,7 @@ def parse_el(be, line):
     elif kind == "float":
         if be in ("c", "cpp"):
             h, exact = val.split(" ")
-            v = hexfloat(h) if exact == "1" else ("inexact", h)
+            v = hexfloat(h) if exact == "1" or bits > 64 else ("inexact", h)     # wider than binary64: nearest double
         elif be == "rust":
             import struct
             v = struct.unpack(">f", bytes.fromhex(val))[0] if bits == 32 else struct.unpack(">d", bytes.fromhex(val))[0]
@@ -353,9 +353,7 @@ def parse_el(be, line):
                     v = float(np.float32(v))
             else:
                 try:
-                    fr = Fraction(Decimal(t))
-                    d = float(fr)
-                    v = d if fr == Fraction(d) or abs(fr - Fraction(d)) <= abs(Fraction(d)) / Fraction(10) ** 30 else ("inexact", t)
+                    v = float(Fraction(Decimal(t)))                               # wider than binary64: nearest double
                 except Exception:
                     v = ("unparsed", t)
     else:
@@ -463,6 +461,8 @@ def expected_value(v):
         return x
     if t == "bool":
         return v["txt"] == "true"
+    if t == "str" and v.get("pad"):
+        return v["txt"].ljust(v["pad"])
     return v["txt"]
 
 
@@ -508,7 +508,7 @@ def compare(exp, ob, textual=False):
         if textual:
             x = observed_as(e["v"]["t"], x)
         if not same(want, x):
-            if isinstance(want, str) and isinstance(x, str) and x.rstrip(" ") == want:
+            if isinstance(want, str) and isinstance(x, str) and x.rstrip(" ") == want.rstrip(" "):
                 pad = pad or ("element:trailing_blanks", {"idx": e["idx"], "value": want}, {"idx": e["idx"], "value": x})
                 continue
             return ("element", {"idx": e["idx"], "value": want}, {"idx": e["idx"], "value": repr(x)})
@@ -1016,7 +1016,8 @@ def run(replay=None):
     })
     V.assumptions += [
         "gcc/g++/gfortran/rustc/bash/json/PyYAML/tomllib on x86-64 are the readers (long double = 16 bytes, real(16) = binary128)",
-        "an environment value of a float node is the Python double; a 32-bit declaration is read back as that double rounded to binary32",
+        "an environment value of a float node is the Python double; a 32-bit declaration is read back as that double rounded to binary32, "
+        "a 128-bit declaration (long double, real(16)) as a value whose rounding to binary64 is that double",
         "C/C++ headers are read at block scope of one function per scenario; Rust exports inside one module per scenario; Fortran exports as one module per scenario",
         "const and constexpr are not distinguished by the C++ reader; Fortran names are case-insensitive; Fortran has no sign attribute",
         "strings are restricted to letters, digits, blanks and _ - . ; none values, empty strings and values outside the declared range are outside the claim",
